@@ -57,12 +57,20 @@ func (l *Log) Len() int {
 }
 
 // FakeWriter is the websocket side of a fake connection; only its identity matters to the hub.
-type FakeWriter struct{ Id int }
+type FakeWriter struct {
+	Id         int
+	OnIsClosed func() bool // if set, answers IsDataConnectionClosed
+}
 
 func (f *FakeWriter) InitDataProcessing(api.WebsocketDataReaderInterface) {}
 func (f *FakeWriter) WriteMessageToWebsocketConnection([]byte) error      { return nil }
 func (f *FakeWriter) CloseDataConnection(int, string)                     {}
-func (f *FakeWriter) IsDataConnectionClosed() (bool, error)               { return false, nil }
+func (f *FakeWriter) IsDataConnectionClosed() (bool, error) {
+	if f.OnIsClosed != nil {
+		return f.OnIsClosed(), nil
+	}
+	return false, nil
+}
 
 // FakeConn implements api.ShipConnectionInterface and records what the hub asks of it.
 type FakeConn struct {
